@@ -285,8 +285,9 @@ def _stable_init(f, local_id, pos):
 PURE_OPS = ("->", "*", "==", "!=", "<", "<=", ">", ">=")
 
 
-def _operands_stable(f, node, dpos, pos):
-    """no operand of the expression is stored (and no call is part of it) between position dpos and position pos"""
+def _operands_stable(f, node, dpos, pos, cut=frozenset(), avoid=frozenset()):
+    """no operand of the expression is stored (and no call is part of it) between position dpos and position pos (on paths that
+    use no edge in `cut` and no position in `avoid`)"""
     ops = set()
     for x in f.desc(node):
         nx = f.nodes[x]
@@ -304,8 +305,14 @@ def _operands_stable(f, node, dpos, pos):
         if not hit:
             continue
         sp = f.node_pos(st.node)
-        if sp is None or (sp != dpos and sp != pos and f.find_path(dpos, {sp}) is not None and f.find_path(sp, {pos}, avoid={dpos}) is not None):
+        if sp is None:
             return False
+        if sp != dpos and sp != pos and sp not in avoid:
+            if cut or avoid:
+                if path_with_cuts(f, dpos, sp, avoid=avoid, cut=cut) is not None and path_with_cuts(f, sp, pos, avoid=set(avoid) | {dpos}, cut=cut) is not None:
+                    return False
+            elif f.find_path(dpos, {sp}) is not None and f.find_path(sp, {pos}, avoid={dpos}) is not None:
+                return False
     return True
 
 
@@ -379,8 +386,20 @@ def _expand_named_tests(f, out, pos):
         if dpos is None or f.find_path(dpos, {pos}) is None and dpos != pos:
             return
         cands = [(rhs, True)] + [(a[0], a[1]) for a in _dominating_atoms_basic(f, dpos) if a[0] != "case"]
+        # between the assignment and pos the flag stays true: no path through another (false) definition, none over a branch edge
+        # that the flag being true rules out (`while(!done) {... if(c) done = true; else x = y; }` - the else arm is not revisited)
+        avoid_ = set(f.node_pos(d[1]) for d in dl if d is not nonfalse[0] and f.node_pos(d[1]) is not None)
+        cut_ = set()
+        fk = key(f, use_node)
+        for b_ in f.blocks.values():
+            c_ = b_.get("cond")
+            if c_ is None or len(b_["succ"]) != 2 or b_.get("tk") == "SwitchStmt" or None in b_["succ"]:
+                continue
+            v_ = eval_expr(f, c_, {fk: 1})
+            if v_ is not None:
+                cut_.add((b_["id"], b_["succ"][1] if v_ else b_["succ"][0]))
         for node, truth in cands:
-            if _operands_stable(f, node, dpos, pos) and (f.strip(node), truth) not in [(f.strip(x[0]), x[1]) for x in out if x[0] != "case"]:
+            if _operands_stable(f, node, dpos, pos, cut=cut_, avoid=avoid_) and (f.strip(node), truth) not in [(f.strip(x[0]), x[1]) for x in out if x[0] != "case"]:
                 add(node, truth, 1)
 
     for _round in range(3):
